@@ -62,6 +62,13 @@ def gen_kernel(rng, ps, high_corr=True):
     if kind == "uniform":
         w = float(rng.choice([1, 3, 0.5, 0.2, 2.5])) * (ps if rng.random() < 0.6 else 1.0)
         h = float(rng.choice([1, 3, 0.5, 0.2, 1.5])) * (ps if rng.random() < 0.6 else 1.0)
+        r = rng.random()
+        if r < 0.15:      # only one of the box dimensions given: the other one is the kernel function's own default (1)
+            return {"kernel": "uniform", "kernel_params": {"width": w}}, {"kind": "uniform", "width": w, "height": 1.0}
+        if r < 0.3:
+            return {"kernel": "uniform", "kernel_params": {"height": h}}, {"kind": "uniform", "width": 1.0, "height": h}
+        if r < 0.35:
+            return {"kernel": "uniform", "kernel_params": {}}, {"kind": "uniform", "width": 1.0, "height": 1.0}
         return {"kernel": "uniform", "kernel_params": {"width": w, "height": h}}, {"kind": "uniform", "width": w, "height": h}
     s = float(rng.choice([0.05, 0.2, 1.0])) * (ps if rng.random() < 0.5 else 1.0)
     return {"kernel": logistic_kernel, "kernel_params": {"s": s}}, {"kind": "logistic", "s": s}
@@ -176,7 +183,7 @@ def rescale(geom, kkw, kdesc, u):
             kk = {"kernel": "gaussian", "kernel_params": {"sigma": kd["cov"]}}
     elif kd["kind"] == "uniform":
         kd["width"] *= u; kd["height"] *= u
-        kk["kernel_params"]["width"] *= u; kk["kernel_params"]["height"] *= u
+        kk["kernel_params"] = {"width": kd["width"], "height": kd["height"]}
     else:
         raise ValueError(kd["kind"])
     return g, kk, kd
